@@ -21,8 +21,13 @@ type ChildParams struct {
 
 // NewChild create new instance of child scope
 func NewChild(parent app.Scope, params ChildParams) app.Scope {
-	var sid string
-	parent.AddTasks(1)
+	var (
+		sid        string
+		registered = true
+	)
+	if err := parent.AddTasks(1); err != nil {
+		registered = false
+	}
 	if params.ContextScope == nil {
 		params.ContextScope = parent.BaseContextScope()
 	}
@@ -42,6 +47,17 @@ func NewChild(parent app.Scope, params ChildParams) app.Scope {
 	}
 	if params.CID == "" {
 		params.CID = parent.CID()
+	}
+	if !registered {
+		return &Scope{
+			parent:       nil,
+			sid:          sid,
+			cid:          params.CID,
+			ContextScope: params.ContextScope,
+			DataScope:    params.DataScope,
+			EventScope:   params.EventScope,
+			Injector:     params.Injector,
+		}
 	}
 	return &Scope{
 		parent:       parent,
